@@ -1,6 +1,7 @@
 //! vh: in-process drivers binding the TLA+ specifications in /verif/specs to the real erg crates.
 //! Every sub-command reads NDJSON records on stdin (produced from TLC output by py/verif) and
 //! writes NDJSON results on stdout.  Panics of the code under test are data, not tool errors.
+mod checkh;
 mod graph;
 mod lexh;
 mod parse;
@@ -19,6 +20,7 @@ fn main() {
         "tsort" => graph::run_tsort(&rest),
         "pathnorm" => pathnorm::run(&rest),
         "pred" => pred::run(&rest),
+        "check" => checkh::run(&rest),
         "lex" => lexh::run(&rest),
         "parse-expr" => parse::run_expr(&rest),
         "parse-eq" => parse::run_eq(&rest),
